@@ -32,6 +32,9 @@ static void ctx_dtor(void *data) {
     m_ctx_t *context = (m_ctx_t *)data;
     M_DEBUG("Ctx '%s' dtor.\n", context->name);
 
+    /* A ctx that never looped may still own a pool (tasks of modules started by hand) */
+    m_thpool_free(&context->thpool, false);
+    release_tasks(context);
     deregister_ctx_src(context, &context->tick.src);
     m_map_free(&context->modules);
     poll_destroy(&context->ppriv);
@@ -104,6 +107,7 @@ static uint8_t loop_stop(m_ctx_t *c) {
 
     /* Destroy thpool eventually waiting on currently running tasks */
     m_thpool_free(&c->thpool, false);
+    release_tasks(c);
 
     c->ppriv.max_events = 0;
     c->stats.looping_start_time = 0;
